@@ -4,6 +4,7 @@ package main
 
 import (
 	"fmt"
+	"go/ast"
 	"go/types"
 	"os"
 	"sort"
@@ -11,6 +12,7 @@ import (
 	"sync"
 	"time"
 
+	"golang.org/x/tools/go/ast/astutil"
 	"golang.org/x/tools/go/ssa"
 )
 
@@ -50,7 +52,49 @@ func newFnExec(p *Program, fn *ssa.Function, c *Contract) *fnExec {
 }
 
 // bindClauseAt binds a clause at an arbitrary position with extra literal parameters.
+// stmtStart returns the start of the innermost statement enclosing pos (names declared by that statement are not in scope there).
+func (p *Program) stmtStart(pos tokenPos) tokenPos {
+	for _, f := range p.Pkg.Syntax {
+		if f.Pos() <= pos && pos < f.End() {
+			path, _ := astutil.PathEnclosingInterval(f, pos, pos)
+			for i, n := range path {
+				s, ok := n.(ast.Stmt)
+				if !ok {
+					continue
+				}
+				if _, isBlock := s.(*ast.BlockStmt); isBlock {
+					break
+				}
+				// the init statement of if/for/switch lives in the scope of that statement: step out of it
+				if i+1 < len(path) {
+					switch par := path[i+1].(type) {
+					case *ast.IfStmt:
+						if par.Init == s {
+							return par.Pos() - 1
+						}
+					case *ast.ForStmt:
+						if par.Init == s {
+							return par.Pos() - 1
+						}
+					case *ast.SwitchStmt:
+						if par.Init == s {
+							return par.Pos() - 1
+						}
+					case *ast.TypeSwitchStmt:
+						if par.Init == s {
+							return par.Pos() - 1
+						}
+					}
+				}
+				return s.Pos()
+			}
+		}
+	}
+	return pos
+}
+
 func (p *Program) bindClauseAt(c *Contract, cl *Clause, pos tokenPos, extra []string) {
+	pos = p.stmtStart(pos)
 	var params []string
 	for _, b := range cl.Bound {
 		params = append(params, b.Name+" "+b.Type)
@@ -65,6 +109,22 @@ func (p *Program) bindClauseAt(c *Contract, cl *Clause, pos tokenPos, extra []st
 	}
 }
 
+// notNew records that the objects a parameter refers to existed before the call.
+func (x *fnExec) notNew(v Val) {
+	switch v.K {
+	case VPtr:
+		x.facts = append(x.facts, Fact{x.next(), Not(App("newobj", SBool, v.Ref))})
+	case VSlice:
+		x.facts = append(x.facts, Fact{x.next(), Not(App("newobj", SBool, v.base()))})
+	case VIface:
+		x.facts = append(x.facts, Fact{x.next(), Not(App("newobj", SBool, v.Fs[1].T))})
+	case VStruct, VTuple:
+		for _, f := range v.Fs {
+			x.notNew(f)
+		}
+	}
+}
+
 // generate symbolically executes the function and collects its obligations.
 func (x *fnExec) generate() {
 	fn, c := x.top, x.C
@@ -76,6 +136,7 @@ func (x *fnExec) generate() {
 		x.inputs = append(x.inputs, flatten(v)...)
 		x.recordRefs(v)
 		x.constrainFresh(st, v)
+		x.notNew(v)
 		if i == 0 && fn.Signature.Recv() != nil && v.K == VPtr {
 			x.assume(st, Not(Eq(v.Ref, BVU(0, 64))))
 			x.assumed["method receivers are non-nil"] = true
@@ -129,6 +190,11 @@ func (x *fnExec) generate() {
 	for _, ac := range c.AtCalls {
 		if x.atCallHits[ac] == 0 {
 			x.errors = append(x.errors, fmt.Sprintf("anchor-lost: at call %s assert#%s: no such call in %s", ac.Callee, ac.Clause.Label, c.Key))
+		}
+	}
+	for _, ac := range c.AtStores {
+		if x.atCallHits[ac] == 0 {
+			x.errors = append(x.errors, fmt.Sprintf("anchor-lost: at store %s assert#%s: no such store in %s", ac.Callee, ac.Clause.Label, c.Key))
 		}
 	}
 	for n, ls := range c.Loops {
@@ -420,6 +486,19 @@ func (x *fnExec) buildQuery(o *Obl, useQuant bool, exact bool) (smt string, getV
 	for k := 0; k < len(w.apps); k++ {
 		r := w.apps[k]
 		var op string
+		if r.Name == "content" && r.Args[0].Op == "ite" {
+			a := r.Args[0]
+			w.assert(Eq(r, Ite(a.Args[0], App("content", r.S, a.Args[1], r.Args[1], r.Args[2]), App("content", r.S, a.Args[2], r.Args[1], r.Args[2]))))
+			continue
+		}
+		if r.Name == "content" && r.Args[0].Op == "store" {
+			// content(store(row,i,v), o, l) = content(row, o, l) when i lies outside [o, o+l)
+			row, i := r.Args[0].Args[0], r.Args[0].Args[1]
+			o, l := r.Args[1], r.Args[2]
+			inner := App("content", r.S, row, o, l)
+			w.assert(Implies(Or(BVCmp("bvult", i, o), BVCmp("bvuge", i, BVBin("bvadd", o, l))), Eq(r, inner)))
+			continue
+		}
 		switch {
 		case strings.HasPrefix(r.Name, "bvsrem_"):
 			op = "bvsrem"
@@ -624,6 +703,70 @@ func verifyFunction(p *Program, c *Contract, cfg Config, filter func(o *Obl) boo
 			}
 			continue
 		}
+		rep.Results = append(rep.Results, r)
+	}
+	return rep
+}
+
+const packageKey = "(package)"
+
+// verifyWriters discharges the "writers" frame obligations by a syntactic scan of every function in the package:
+// a field may be stored to directly only by the listed functions.
+func verifyWriters(p *Program) *FuncReport {
+	rep := &FuncReport{Key: packageKey, SmokeOK: true}
+	if len(p.Writers) == 0 {
+		return rep
+	}
+	writers := map[string]map[string]bool{}
+	var scan func(fn *ssa.Function, owner string)
+	scan = func(fn *ssa.Function, owner string) {
+		for _, b := range fn.Blocks {
+			for _, in := range b.Instrs {
+				if s, ok := in.(*ssa.Store); ok {
+					pre := staticAddrPrefix(s.Addr)
+					if writers[pre] == nil {
+						writers[pre] = map[string]bool{}
+					}
+					writers[pre][owner] = true
+				}
+			}
+		}
+		for _, af := range fn.AnonFuncs {
+			scan(af, owner)
+		}
+	}
+	for k, fn := range p.FuncByKey {
+		if fn.Parent() != nil {
+			continue
+		}
+		if isSpecFile(p, fn) {
+			continue
+		}
+		scan(fn, k)
+	}
+	for _, ws := range p.Writers {
+		r := &OblResult{Name: "writers#" + ws.Field, Func: packageKey, Kind: "writers", Tags: ws.Tags, Status: "proved", Backend: "frame-scan", Sites: 1,
+			Src: "only " + strings.Join(ws.Allowed, ", ") + " store to " + ws.Field}
+		allowed := map[string]bool{}
+		for _, a := range ws.Allowed {
+			allowed[a] = true
+			if p.FuncByKey[a] == nil {
+				rep.Errors = append(rep.Errors, fmt.Sprintf("anchor-lost: writers %s: function %s not found", ws.Field, a))
+			}
+		}
+		var extra []string
+		for w := range writers["F:"+ws.Field] {
+			if !allowed[w] {
+				extra = append(extra, w)
+			}
+		}
+		sort.Strings(extra)
+		if len(extra) > 0 {
+			r.Status = "refuted"
+			r.FailSite = "unlisted writer(s): " + strings.Join(extra, ", ")
+			r.Output = r.FailSite
+		}
+		r.Sites = len(writers["F:"+ws.Field])
 		rep.Results = append(rep.Results, r)
 	}
 	return rep
